@@ -351,6 +351,30 @@ def main():
         with open(os.path.join(HERE, "automut_survivors.json"), "w") as f:
             json.dump(surv, f, indent=1)
         return 0
+    if cmd == "retest":
+        # re-run recorded mutants (by id, or every SURVIVED/ERROR one with "all") against all checks; sites are re-located
+        # by (file, kind, old, new, line) because offsets drift when /repo receives fixes
+        out = opt("--out", os.path.join(HERE, "automut_results.json"))
+        res = json.load(open(out))
+        ids = [a for a in args[1:] if a.startswith("A")]
+        todo = [r for r in res if (r["id"] in ids) or ("all" in args and r["status"] in ("SURVIVED", "ERROR"))]
+        cur = {}
+        for s_ in ss:
+            cur.setdefault((s_["file"], s_["kind"], s_["old"], s_["new"]), []).append(s_)
+        for r in todo:
+            cands = cur.get((r["file"], r["kind"], r["old"], r["new"]), [])
+            if not cands:
+                print("GONE", r["id"], r["file"], r["line"], flush=True)
+                r["status"] = "GONE"
+                continue
+            site = min(cands, key=lambda c: abs(c["line"] - r["line"]))
+            rr = run_one(dict(site, id=r["id"]), True, opt("--tier", "quick"))
+            r.update(status=rr["status"], by=rr.get("by"), tried=rr.get("tried"), sigs=rr.get("sigs"), a=site["a"], b=site["b"],
+                     line=site["line"], retested=True)
+            print(rr["status"], r["id"], r["file"], "L%d" % site["line"], r["kind"], repr(r["old"][:40]), "->", repr(r["new"][:40]),
+                  rr.get("by", ""), rr.get("tried", ""), flush=True)
+            json.dump(res, open(out, "w"), indent=1)
+        return 0
     if cmd == "suite":
         res = json.load(open(args[1]))
         for r in res:
